@@ -73,10 +73,20 @@ AllNatural == [f \in Fields |-> Natural]
 \* scenario families (version and path are added by Init)
 Singles == UNION {{[size |-> 0, fields |-> [AllNatural EXCEPT ![f] = sh]] : sh \in Shapes(f)} : f \in Fields}
 Sizes   == {[size |-> sz, fields |-> AllNatural] : sz \in {65535, 65536, 65537}}
-\* two limits at once: one field over the byte limit only, another field (or the event) over a hard limit
-Pairs   == {[size |-> 0, fields |-> [AllNatural EXCEPT ![q[1]] = SoftOnly, ![q[2]] = HardCps]] :
-               q \in {r \in Fields \X Fields : r[1] # r[2]}}
-           \cup {[size |-> sz, fields |-> [AllNatural EXCEPT ![f] = SoftOnly]] : f \in Fields, sz \in {65536, 65537}}
+\* two limits at once.  An excess is (field, kind): kind "soft" = over the byte limit only, "hard" = over the
+\* code-point limit (ASCII, or multi-byte so that the bytes are far above as well); the event size is a sixth
+\* "field" that can only be exceeded hard.  Every pair of excesses on two different fields:
+\*   soft + hard -> refused (the hard one decides, whichever field is examined first),
+\*   hard + hard -> refused,   soft + soft -> persistable.
+HardWide == [cps |-> 256, nwide |-> 200, width |-> 2]       \* 456 bytes, 256 code points
+FieldPairs == {q \in Fields \X Fields : q[1] # q[2]}
+PairsSoftHard == {[size |-> 0, fields |-> [AllNatural EXCEPT ![q[1]] = SoftOnly, ![q[2]] = h]] : q \in FieldPairs, h \in {HardCps, HardWide}}
+                 \cup {[size |-> 65537, fields |-> [AllNatural EXCEPT ![f] = SoftOnly]] : f \in Fields}
+PairsHardHard == {[size |-> 0, fields |-> [AllNatural EXCEPT ![q[1]] = HardCps, ![q[2]] = HardCps]] : q \in FieldPairs}
+                 \cup {[size |-> 65537, fields |-> [AllNatural EXCEPT ![f] = HardCps]] : f \in Fields}
+PairsSoftSoft == {[size |-> 0, fields |-> [AllNatural EXCEPT ![q[1]] = SoftOnly, ![q[2]] = SoftOnly]] : q \in FieldPairs}
+                 \cup {[size |-> 65536, fields |-> [AllNatural EXCEPT ![f] = SoftOnly]] : f \in Fields}
+Pairs == PairsSoftHard \cup PairsHardHard \cup PairsSoftSoft
 Scenarios == IF Family = "single" THEN Singles \cup Sizes ELSE Pairs
 
 Init == /\ phase = "scenario" /\ out = "none"
